@@ -1,9 +1,13 @@
 #!/bin/sh
-# usage: try_mutation.sh <property id> <patch.diff> [seed]  — apply to /repo, run the quick check, undo
+# usage: try_mutation.sh <property id> <patch.diff> [seed]  — apply to /repo, run the quick check, undo.
+# The evidence file written by the run on the MUTATED tree is put back afterwards (the committed evidence describes the
+# unchanged tree).
 set -u
 cd /repo || exit 2
 git diff --quiet || { echo "repo dirty"; exit 2; }
 git apply "$2" || { echo "patch does not apply"; exit 2; }
 cd /verif
+cp "evidence/$1.json" "/var/tmp/evidence-$1.keep" 2>/dev/null
 VERIF_SEED=${3:-1} ./check "$1" --tier quick | grep -E "VIOLATION|tier=|^#" | head -8
 git -C /repo checkout -- . && git -C /repo clean -fdq
+[ -f "/var/tmp/evidence-$1.keep" ] && mv "/var/tmp/evidence-$1.keep" "evidence/$1.json"
